@@ -26,6 +26,14 @@ def gen_oid(rng, min_arcs=2, max_arcs=14, first=None):
     return (a0, a1) + tuple(gen_arc(rng) for _ in range(n - 2))
 
 
+def gen_oid_wide(rng, max_arcs=10):
+    """A valid X.690 OID under joint-iso-itu-t(2) whose second arc is >= 40 (8.19.4: the first sub-identifier is
+    40*2 + second and takes several octets from 2.48 on).  An agent may send these; the text parser need not accept them."""
+    a1 = rng.choice([40, 47, 48, 175, 176, 999, 16303, 16304, 2097071, 2097072, 4294967215,
+                     rng.randrange(40, 48), rng.randrange(48, 1000), rng.randrange(40, 4294967216)])
+    return (2, a1) + tuple(gen_arc(rng) for _ in range(rng.randint(0, max_arcs - 2)))
+
+
 def int_edges():
     out = {0, 1, -1}
     for k in range(1, 9):
@@ -160,8 +168,9 @@ def gen_value(rng, kinds=None, form_p=0.2):
         b = bytes(rng.randrange(256) for _ in range(4))
         t, py = B.tlv(B.IPADDR, b, form), ".".join(str(x) for x in b)
     elif kind == "Oid":
-        o = gen_oid(rng)
+        o = gen_oid(rng) if rng.random() < 0.85 else gen_oid_wide(rng)
         t, py = B.enc_oid(o, form), B.oid_text(o)
+        cls = "Oid:%s" % ("2.x>=40" if o[1] >= 40 else "usual")
     elif kind == "Bool":
         x = rng.choice([0, 1, 0xFF, rng.randrange(256)])
         t, py = B.tlv(B.BOOL, bytes([x]), form), x != 0
